@@ -49,6 +49,21 @@ FILE_FORMATS = [
 ]
 
 
+def fmt_addr(fmt, base, a):
+    """What the Python format string of an ANCHOR_FORMATS / FILE_FORMATS row makes of address a (the generator has
+    to know it to write the anchors an author would write by hand; the verdict never uses it)."""
+    pre, k, suf = fmt
+    if k == 'd' or (k == 'b' and base != 16):
+        body = str(a)
+    elif k == 'x':
+        body = '%04x' % a
+    elif k in 'Xb':
+        body = '%04X' % a
+    else:
+        body = '%05d' % a
+    return pre + body + suf
+
+
 def skool_addr(a, hexa):
     return '$%04X' % a if hexa else '%05d' % a
 
@@ -194,14 +209,55 @@ class Gen:
             ent, ins = rng.choice(self.local_ins(code))
             a = ins['a']
         m = '#R' + (str(a) if rng.random() < 0.7 else '$%04X' % a) + suffix
+        # explicit anchor (skool-macros.rst #R: "#name is the named anchor of an item on the disassembly page"; "an
+        # anchor that matches the entry address is converted to the format specified by the AddressAnchor
+        # parameter").  Only anchors the documentation promises to exist are written:
+        #   entry   a number (decimal or $hex) equal to the address of the containing entry, whichever instruction or
+        #           entry point of it the macro addresses
+        #   self    a number equal to the addressed (non-first) instruction  } not converted by the documentation:
+        #   other   a number equal to another instruction of the entry        } written as a number only when that is
+        #                                                                       the id AddressAnchor produces
+        #   fmt     the id AddressAnchor gives an instruction of the entry, written out by hand ('9c43', 'a40003')
+        #   custom  an id the entry description attaches with #HTML
         r = rng.random()
-        if r < 0.15 and a == ent['a']:
-            m += '#%d' % a
-        elif r < 0.3 and ent.get('custom'):
-            m += '#' + ent['custom']
+        ea = ent['a']
+        ins = [i['a'] for i in ent['ins']]
+        kind = v = None
+        if r < 0.2:
+            kind, v = 'entry', ea
+        elif r < 0.28:
+            kind, v = 'self', a
+        elif r < 0.35:
+            kind, v = 'other', rng.choice(ins)
+        elif r < 0.44:
+            kind, v = 'fmt', rng.choice(ins + [a])
+        elif r < 0.56 and ent.get('custom'):
+            kind = 'custom'
+        if kind in ('self', 'other'):
+            if v == ea:
+                kind = 'entry'
+            elif fmt_addr(self.afmt, self.base, v) != str(v):
+                kind = 'fmt'
+        if kind == 'entry':
+            x = rng.random()
+            txt = str(v) if x < 0.6 else ('$%04X' % v if x < 0.85 else '$%04x' % v)
+        elif kind in ('self', 'other'):
+            txt = str(v)
+        elif kind == 'fmt':
+            txt = fmt_addr(self.afmt, self.base, v)
+            if txt[0].isupper():
+                # ('#R52000#CB20': the unconverted anchor comes back as '...html#CB20' and is scanned again, skool2html
+                # stops with "Found unknown macro: #CB" on the unchanged tree - no file is written, not a C16 clause,
+                # reported separately, not generated)
+                kind = None
+        elif kind == 'custom':
+            txt = ent['custom']
+        if kind:
+            m += '#' + txt
+            self.ranchors.append(dict(ctx=ctx, tc=ent['c'], a=a, ea=ea, kind=kind, v=v, txt=txt))
         if rng.random() < 0.3:
             m += '(link %d)' % a
-        elif m[-1].isdigit() or m[-1] in 'ABCDEF':
+        else:
             m += ' '          # keep following text from being read as part of the macro
         return m
 
@@ -302,6 +358,7 @@ class Gen:
         rng = self.rng
         S = dict(seed=self.seedval)
         self.images, self.audio, self.resources = [], [], {}
+        self.ranchors = []
         # options
         single_how = rng.choice(['', '', '', '-1', 'ref', 'ref'])
         single = single_how != ''
@@ -354,11 +411,13 @@ class Gen:
             for e in code['entries']:
                 if e['t'] != 'i' and rng.random() < 0.25:
                     e['custom'] = 'c%dx' % ncust
+                    e['custom_html'] = rng.choice(['<span id="%s"></span>', '<a id="%s"></a>', '<a name="%s"></a>']) % e['custom']
                     ncust += 1
 
         # [Game]
         atext, afmt = rng.choice(ANCHOR_FORMATS)
         ftext, ffmt = rng.choice(FILE_FORMATS)
+        self.afmt, self.base = afmt, 16 if base == '-H' else 10
         game = {}
         if atext != '{address}' or rng.random() < 0.2:
             game['AddressAnchor'] = atext
@@ -604,7 +663,7 @@ class Gen:
         )
         S['tla'] = tla
         S['meta'] = dict(single=single, runs=runs, opts=opts, anchor=atext, codefiles=ftext, ncodes=len(self.codes),
-                         paths=P, join_css=join_css, theme=theme, game=game,
+                         paths=P, join_css=join_css, theme=theme, game=game, ranchors=self.ranchors,
                          remotes=[sorted(a for decl in c['remotes'].values() for ea, pts in decl for a in [ea] + pts)
                                   for c in self.codes])
         # a generated site must not map two documents to one path (that would be an input error, not a finding)
@@ -641,7 +700,7 @@ class Gen:
             for k in range(rng.choice([0, 1, 1, 2])):
                 desc.append(self.text(ctx))
             if e.get('custom'):
-                desc.append('Anchor here #HTML(<span id="%s"></span>) ok' % e['custom'])
+                desc.append('Anchor here #HTML(%s) ok' % e['custom_html'])
             regs = rng.random() < 0.25
             start = rng.random() < 0.25 and e['t'] != 'i'
             if desc or regs or start:
@@ -920,12 +979,19 @@ def render_sim(site, n):
             if e['c'] == c and a in e['ins']:
                 return e
 
+    ranchors = []
+
     def rmacro(fromc, r, remotes):
         m = '#R%d' % r['a']
+        te = container(r['c'], r['a'])
         if r['c'] != fromc:
             m += '@' + ids[r['c'] - 1]
-            te = container(r['c'], r['a'])
             remotes.setdefault((r['c'], te['a']), set()).add(r['a'])
+        if r.get('anc') and not r['op']:
+            # the explicit anchor of Site.tla's references: a number that evaluates to the containing entry's address
+            txt = ('$%04X' if (n + r['a']) % 3 == 0 else '%d') % te['a']
+            m += '#' + txt
+            ranchors.append(dict(ctx=fromc - 1, tc=r['c'] - 1, a=r['a'], ea=te['a'], kind='entry', v=te['a'], txt=txt))
         return m + '(ref)'
     OPS = {'c': 'XOR A', 't': 'DEFM "a"', 's': 'DEFS 1', 'w': 'DEFW 0'}
     sources = {}
@@ -961,7 +1027,7 @@ def render_sim(site, n):
     tla = dict(site, doc=1)
     return dict(seed=n, sim=True, sources=sources, runs=[['-q']], tla=tla,
                 meta=dict(single=bool(site['single']), runs=[ALLFLAGS], opts=[], anchor=k, codefiles='{address}.html', ncodes=2,
-                          paths={}, join_css=False, theme=False, game={}, remotes=[[], []], sim=True))
+                          paths={}, join_css=False, theme=False, game={}, remotes=[[], []], sim=True, ranchors=ranchors))
 
 
 def sim_worker(args):
